@@ -234,8 +234,10 @@ def check_end_kinds(c):
                     f = reg.getSfuncFixedSpacing(N + 1, L)
                 except ValueError:
                     continue
-                lo = (float(f(e)) - float(f(0.0))) / e
-                hi = (float(f(float(N))) - float(f(N - e))) / e
+                # one-sided derivatives at the two ends, extrapolated to step 0 (the spacing may grow
+                # by two orders of magnitude within a few indices)
+                lo = richardson(lambda h: (float(f(h)) - float(f(0.0))) / h, e)[0]
+                hi = richardson(lambda h: (float(f(float(N))) - float(f(N - h))) / h, e)[0]
                 k_lo, k_hi = kind.split(".")
                 ends[k_lo].append((kind + ":lower", lo))
                 ends[k_hi].append((kind + ":upper", hi))
